@@ -23,6 +23,7 @@ type Env struct {
 	inEnsures  bool
 	callee     bool // evaluating a callee contract at a call site
 	callResult *Val
+	callRecv   *Val // receiver of an interface method call at an anchor (callrecv)
 	specDepth  int
 	typeFn     *ssa.Function
 	callArgs   []Val
@@ -78,6 +79,9 @@ func (env *Env) lookupIdent(name string) (Val, bool) {
 	}
 	if name == "callresult" && env.callResult != nil {
 		return *env.callResult, true
+	}
+	if name == "callrecv" && env.callRecv != nil {
+		return *env.callRecv, true
 	}
 	if strings.HasPrefix(name, "callarg") && env.callArgs != nil {
 		var i int
@@ -722,6 +726,11 @@ func (env *Env) evalCall(n ECall) Val {
 		limitf("len of %s in spec", v.Typ)
 	case "cap":
 		v := env.eval(n.Args[0])
+		if _, ok := v.Typ.Underlying().(*types.Chan); ok {
+			// buffer size of a channel: fixed by the make that created it (chan_cap is set there)
+			e.S.DefineFun("chan_cap", "(declare-fun chan_cap (Int) Int)")
+			return term(fmt.Sprintf("(chan_cap %s)", v.T), tInt)
+		}
 		return term(fmt.Sprintf("(sl_cap %s)", v.T), tInt)
 	case "has":
 		m := env.eval(n.Args[0])
